@@ -71,6 +71,9 @@ def run_tv(prop, families, functions, assumptions, design_ref, explanation_extra
       total_preds += 1
       st = r['status']
       counts[st] = counts.get(st, 0) + 1
+      if r.get('known_finding'):
+        out.violation('known', r['known_replay'])
+        counts['known_finding_then_rechecked'] = counts.get('known_finding_then_rechecked', 0) + 1
       pf = per_family.setdefault(res.get('family', '?'), {})
       pf[st] = pf.get(st, 0) + 1
       solver_s += r.get('solver_s', 0.0)
